@@ -2548,10 +2548,10 @@ func lemmaForwardSession(raw *rawEnvelope) (e *Session, e3 *Session, accepted bo
 //@   modifies nothing
 
 //@ func (*tcpTransport).setConn :: (t, conn) ()
-//@   props C16
+//@   props C12 C16
 //@   requires t != nil && conn != nil && t.ReadLimit >= 0
 //@   modifies t.conn, t.ctxConn, t.encoder, t.decoder, t.limitedReader, t.ReadLimit, t.limitedReader.consumed
-//@   ensures [C16] @armed tcpInv(t) && t.limitedReader.N == t.ReadLimit
+//@   ensures [C12,C16] @armed tcpInv(t) && t.limitedReader.N == t.ReadLimit  ## in particular the decoder reads through the very budget that Receive re-arms (C12: an intact stream is never cut by the transport itself)
 //@   ensures [C16] @defaultlimit old(t.ReadLimit) == 0 ==> t.ReadLimit == DefaultReadLimit
 //@   ensures [C16] @keptlimit old(t.ReadLimit) != 0 ==> t.ReadLimit == old(t.ReadLimit)
 //@   ensures t.conn == conn
@@ -2930,6 +2930,7 @@ func lemmaForwardSession(raw *rawEnvelope) (e *Session, e3 *Session, accepted bo
 //@   ensures [C06] @guard !(old(transportOK(c)) && old(c.state) == SessionStateEstablished) ==> result != nil
 //@   checks [C20] @handlererrorstops nerr("(*EnvelopeMux).handleMessage") + nerr("(*EnvelopeMux).handleNotification") + nerr("(*EnvelopeMux).handleRequestCommand") + nerr("(*EnvelopeMux).handleResponseCommand") > 0 ==> result != nil
 //@   loop 0 step [C04,C20] @onedispatch nsent(channel.inMsgChan) == 0 && nerr("(*EnvelopeMux).handleMessage") + nerr("(*EnvelopeMux).handleNotification") + nerr("(*EnvelopeMux).handleRequestCommand") + nerr("(*EnvelopeMux).handleResponseCommand") == 0  ## an iteration that loops back dispatched without error (an unmatched envelope does not leave the loop)
+//@   loop 0 step [C04,C20] @dispatchesreceived ncalls("(*EnvelopeMux).handleMessage") == nrecv(channel.inMsgChan) && ncalls("(*EnvelopeMux).handleNotification") == nrecv(channel.inNotChan) && ncalls("(*EnvelopeMux).handleRequestCommand") == nrecv(channel.inReqCmdChan) && ncalls("(*EnvelopeMux).handleResponseCommand") == nrecv(channel.inRespCmdChan)  ## every envelope taken from an inbound stream is handed to the dispatcher of its kind, once
 
 // ---- the server's connection loop: one channel, one fresh id, one serving goroutine per transport ----
 
